@@ -328,9 +328,11 @@ def run(ctx):
                  "container equality compares __str__() renderings, which is not injective ('1=a|2=b' renders a one-tag and a two-tag container alike): "
                  "equality can hold although the tag/value content differs", loc(eq))
     ign = None
-    for n in walk_no_nested(eq):
-        if isinstance(n, ast.Assign) and isinstance(n.targets[0], ast.Name) and isinstance(n.value, (ast.Set, ast.List, ast.Tuple)):
-            v = fold.fold(n.value)
+    cands = [n.value for n in walk_no_nested(eq) if isinstance(n, ast.Assign) and isinstance(n.targets[0], ast.Name)]
+    cands += [n.comparators[0] for n in ast.walk(eq) if isinstance(n, ast.Compare) and len(n.ops) == 1 and isinstance(n.ops[0], ast.NotIn)]
+    for cv in cands:
+        if isinstance(cv, (ast.Set, ast.List, ast.Tuple)):
+            v = fold.fold(cv)
             if isinstance(v, (frozenset, list, tuple)) and v and all(getattr(x, "cls", None) == "FTag" for x in v):
                 ign = {str(Folder.val(x)) for x in v}
     ctx.instance("C18.equality", f"{CLS}.__eq__[dict branch ignore set]", ign == {"8", "9", "10", "35"},
